@@ -1,4 +1,5 @@
-import EdpVerif.Generated.Misc
+import EdpVerif.Generated.MiscC04
+import EdpVerif.Generated.MiscState
 import EdpVerif.Lemmas.Handshake
 /-!
 # C04 — handshake: connected only after cookie proof, in protocol order; failure is final; flags are the intersection; layouts
